@@ -17,6 +17,13 @@ import (
 // iterated exactly its keys.
 
 var structSites map[string]bool
+var structSiteByMode = map[string]string{}
+
+// StructSiteFor returns the map-range site that visits struct fields in the given mode.
+func StructSiteFor(mode string) string {
+	StructSites()
+	return structSiteByMode[mode]
+}
 
 func StructSites() map[string]bool {
 	if structSites != nil {
@@ -33,10 +40,16 @@ func StructSites() map[string]bool {
 	s := z.Struct(z.Schema{"qa": z.String(), "qb": z.String()})
 	var d T
 	s.Parse(map[string]any{"qa": "x", "qb": "y"}, &d)
+	np := len(r.Visits)
 	s.Validate(&d)
-	for _, v := range r.Visits {
+	for i, v := range r.Visits {
 		if len(v.Keys) == 2 && v.Keys[0] == "qa" && v.Keys[1] == "qb" {
 			sites[v.Site] = true
+			if i < np {
+				structSiteByMode["parse"] = v.Site
+			} else {
+				structSiteByMode["validate"] = v.Site
+			}
 		}
 	}
 	simrt.Uninstall()
@@ -482,6 +495,7 @@ func genModelWorld(r *Rng, prop string) *World {
 			}
 			op.Input = v
 		}
+		op.Rev = r.P(0.25)
 		ops = append(ops, op)
 	}
 	w.Tasks = [][]Op{ops}
